@@ -53,6 +53,13 @@ def check_orientation(ctx: Ctx) -> None:
     ctx.need(len(st) == 1, "__create_graph: nodes_to_ios[disc] = (inputs, outputs) not found")
     order = ["in" if "input_grammar" in unparse(e) else ("out" if "output_grammar" in unparse(e) else "?") for e in st[0].value.elts]
     ctx.need(sorted(order) == ["in", "out"], "__create_graph: the (inputs, outputs) tuple is not built from the grammars")
+    # all the names of each grammar take part: an optional input with a default is a dependency as well
+    loop_disc = [s_ for s_ in stmts_of(f) if isinstance(s_, ast.For) and st[0] in list(ast.walk(s_))]
+    dv = dotted(loop_disc[0].target) if loop_disc else "disc"
+    for e, side in zip(st[0].value.elts, order):
+        g = f"{dv}.io.{'input' if side == 'in' else 'output'}_grammar"
+        accepted = {f"set({g})", f"set({g}.names)", f"set({g}.keys())", f"{g}.names", f"{g}.keys()", f"frozenset({g})", f"set({g}.names_without_namespace)"}
+        ctx.ob("8.1-edge", con1, norm_stmt(e) in accepted, f"the {side}put side of the dependency graph must be every name of the {side}put grammar; `{norm_stmt(e)}` leaves names out (e.g. optional inputs), so a consumer can be scheduled before or beside its producer", node=e, stmt=f"all {side}put names of the grammar")
     role = {}  # variable name -> (discipline var, 'in'|'out')
     for lp in loops:
         d = lp.target.elts[0].id
@@ -277,6 +284,7 @@ def run(ctx: Ctx) -> None:
 
 # ---------------------------------------------------------------------------
 WITNESSES = [
+    {"name": "edges-from-required-inputs-only", "file": DG, "old": "                set(disc.io.input_grammar),\n", "new": "                set(disc.io.input_grammar.required_names),\n", "expect": "8.1"},
     {"name": "edge-reversed", "file": DG, "old": "graph_add_edge(disc_i, disc_j, io=coupled_io)", "new": "graph_add_edge(disc_j, disc_i, io=coupled_io)", "expect": "8.1"},
     {"name": "inputs-outputs-swapped-in-intersection", "file": DG, "old": "        for disc_i, (_, outputs_i) in nodes_to_ios.items():\n            for disc_j, (inputs_j, _) in nodes_to_ios.items():", "new": "        for disc_i, (outputs_i, _) in nodes_to_ios.items():\n            for disc_j, (_, inputs_j) in nodes_to_ios.items():", "expect": "8.1"},
     {"name": "peel-in-degree", "file": DG, "old": "return [n for n in graph.nodes if graph.out_degree(n) == 0]", "new": "return [n for n in graph.nodes if graph.in_degree(n) == 0]", "expect": "8.1"},
@@ -297,6 +305,7 @@ WITNESSES = [
     {"name": "single-for-mda-group", "file": MC, "old": "            if self.__requires_mda(coupled_disciplines):", "new": "            if not self.__requires_mda(coupled_disciplines):", "expect": "8.3"},
 ]
 TWINS = [
+    {"name": "grammar-names-property", "file": DG, "old": "                set(disc.io.input_grammar),\n", "new": "                set(disc.io.input_grammar.names),\n"},
     {"name": "intersection-operands-swapped", "file": DG, "old": "coupled_io = outputs_i & inputs_j", "new": "coupled_io = inputs_j & outputs_i"},
     {"name": "reverse-by-slice", "file": DG, "old": "        return list(reversed(execution_sequence))", "new": "        return execution_sequence[::-1]"},
     {"name": "both-edge-and-peel-flipped", "edits": [
